@@ -45,6 +45,7 @@ CONSTANTS Methods,    \* subset of {"cosine", "corr", "rho-a", "cosine_cov", "co
           ThinG,      \* ... and one in ThinG for non-singleton groupings
           Xforms,     \* set of <<a, b, c>>, a, c > 0: x |-> (a x + b) / c applied to one data RDM
           ByFilter,   \* proto mode: allowed <<rdm descriptor, pattern descriptor>> pairs ({} = all)
+          CvCat,      \* value mode, cross-validation: catalogue of fold structures (Case records)
           SrcVariants \* proto mode: which SrcOb variants (1 plain, 2 condition twice, 3 RDM twice)
 
 VARIABLES src,    \* the data object (all RDMs, all conditions)
@@ -148,12 +149,12 @@ CandGrid == LET mask == MaskOf(val[1])  n == L - Cardinality(mask) IN
   IF meth = "rho-a"
   THEN {c \in [1..L -> {NaN} \cup (1..n)] : MaskOf(c) = mask /\ Dense(c)}
   ELSE {c \in [1..L -> {NaN} \cup (0..CandMax)] : MaskOf(c) = mask}
-Adversary == /\ pc = "done" /\ Mode = "value" /\ Singleton /\ meth \in {"cosine", "corr", "rho-a"}
+Adversary == /\ pc = "done" /\ Mode = "value" /\ api = "boot" /\ Singleton /\ meth \in {"cosine", "corr", "rho-a"}
              /\ cand' \in CandGrid /\ pc' = "adv"
              /\ UNCHANGED <<objs, hist, fc, folds, stage, src, splits, api, meth, val, g, pred, upper, res, xf>>
 \* clause e: positive rescaling (cosine type) / positive affine maps (correlation type), one per data RDM
 XfFor(m) == IF m \in CosType THEN {t \in Xforms : t[2] = 0} ELSE Xforms
-Transform == /\ pc = "done" /\ Mode = "value" /\ meth \in CosType \cup CorrType
+Transform == /\ pc = "done" /\ Mode = "value" /\ api = "boot" /\ meth \in CosType \cup CorrType
              /\ xf' \in {t \in [1..NR -> XfFor(meth)] : \E r \in 1..NR : t[r] # <<1, 0, 1>>}
              /\ pc' = "xf"
              /\ UNCHANGED <<objs, hist, fc, folds, stage, src, splits, api, meth, val, g, pred, upper, res, cand>>
@@ -177,6 +178,12 @@ VInit == /\ Common
          /\ folds = Folds(fc) /\ src = SrcOb(fc.src) /\ splits = SplitsR(fc)
          /\ api = "boot" /\ meth \in Methods
          /\ val \in UNION {Stacks(mask, fc.byR) : mask \in Masks}
+\* value mode for cv_noise_ceiling: a fold structure from the catalogue, singleton or grouped test sets
+VInitCv == /\ Common
+           /\ fc \in CvCat
+           /\ folds = Folds(fc) /\ src = SrcOb(fc.src) /\ splits = SplitsR(fc)
+           /\ api = "cv" /\ meth \in Methods
+           /\ val \in UNION {Stacks(mask, "subj") : mask \in Masks}
 
 \* folds the code can score: a ceiling set exists, at least 3 test conditions, something to pool
 Evaluable(c) == LET FF == Folds(c) IN
@@ -254,10 +261,10 @@ FoldStat(f) == LET F == folds[f]  rows == ObVals(F.ceil)  trows == ObVals(F.test
     \* rho-a exactly: lower_f = 3 * rho / (nt * (n^3 - n))
     rho |-> IF meth = "rho-a" THEN RhoSum(RankPool2(rows), trows) ELSE 0,
     rhoUp |-> IF meth = "rho-a" THEN RhoSum(RankPool2(val), trows) ELSE 0,
-    nt |-> Len(trows)]
+    nt |-> Len(trows), tt |-> F.test.vec[1]]
 EmitNC ==
   /\ (pc = "done" /\ Mode = "value") =>
-        PrintT(ToJson([t |-> "stack", by |-> fc.byR, meth |-> meth, val |-> val,
+        PrintT(ToJson([t |-> "stack", api |-> api, case |-> fc, by |-> fc.byR, meth |-> meth, val |-> val,
                        all |-> PoolStat(meth, val),
                        loo |-> [f \in DOMAIN folds |-> FoldStat(f)]]))
   /\ pc = "adv" => PrintT(ToJson([t |-> "cand", by |-> fc.byR, meth |-> meth, val |-> val, c |-> cand]))
